@@ -1402,10 +1402,49 @@ func (g *gen) runFaults() {
 // checks that inputs are untouched
 // ---------------------------------------------------------------------------
 
+// opPauseSequences: two fixed pause / un-pause sequences on ONE shard's (long-lived) pause objects: pause A, un-pause A,
+// pause B; then pause A, pause C, un-pause A. Each step's flag must be what a fresh object writes (no random choice
+// beyond the tokens).
+func (g *gen) opPauseSequences() bool {
+	t := g.allTokens()
+	if len(t) < 3 {
+		return false
+	}
+	o := g.r.Intn(len(t))
+	a, b, c := t[o], t[(o+1)%len(t)], t[(o+2)%len(t)]
+	shard := g.r.Intn(g.nsh)
+	isPaused := map[string]bool{}
+	for _, p := range g.pausedTokens(shard) {
+		isPaused[string(p)] = true
+	}
+	for _, x := range [][]byte{a, b, c} {
+		if isPaused[string(x)] {
+			g.do(spec{shard: shard, fn: oracle.FnUnPause, caller: oracle.ESDTSC, rcv: oracle.SystemAccount, args: [][]byte{x}})
+		}
+	}
+	step := func(fn string, tok []byte) {
+		g.do(spec{shard: shard, fn: fn, caller: oracle.ESDTSC, rcv: oracle.SystemAccount, args: [][]byte{tok}})
+	}
+	step(oracle.FnPause, a)
+	step(oracle.FnUnPause, a)
+	step(oracle.FnPause, b)
+	step(oracle.FnPause, a)
+	step(oracle.FnPause, c)
+	step(oracle.FnUnPause, a)
+	step(oracle.FnUnPause, b)
+	step(oracle.FnUnPause, c)
+	return true
+}
+
 func (g *gen) runDeterminism() {
 	g.setupWorld(worldOpts{activation: 0, epoch: 0})
+	// the accounts of this profile's world keep and hand out value slices BY REFERENCE (as the repository's mock.Account
+	// does): a function that writes into a value it retrieved, or keeps a slice it saved, changes state behind the
+	// world's back - visible against the model and against the fresh-object replica (which gets deep copies)
+	g.emit("aliasing on")
 	g.standardState()
 	g.widenRoles()
+	g.opPauseSequences()
 	// role lists are ordered: take one role out of a list of three or more (two or more stay, so an implementation that
 	// rebuilds the list from an unordered container shows), put it back, and hand create roles over
 	opRoleChurn := func() bool {
@@ -1447,7 +1486,7 @@ func (g *gen) runDeterminism() {
 		return true
 	}
 	g.loop([]wop{
-		{12, g.opTransfer}, {12, g.opNFTTransfer}, {16, g.opMulti}, {8, g.opMint}, {6, g.opLocalBurn}, {5, g.opESDTBurn},
+		{2, g.opPauseSequences}, {12, g.opTransfer}, {12, g.opNFTTransfer}, {16, g.opMulti}, {8, g.opMint}, {6, g.opLocalBurn}, {5, g.opESDTBurn},
 		{8, g.opCreate}, {6, g.opAddQty}, {6, g.opNFTBurn}, {3, g.opAddURI}, {3, g.opUpdateAttr}, {3, g.opFreezeThenWipe},
 		{4, g.opSKV}, {3, g.opAnyFunction}, {10, g.lateNetwork}, {2, g.opPayableFlip}, {4, opRoleChurn}, {1, opHandOver}, {3, g.opFrozenZeroCredit}, {4, g.opPauseToggle}, {2, g.opFreezeToggle},
 		// output.go: merging never writes its inputs, not even the spare capacity behind their transfer slices
